@@ -215,6 +215,76 @@ def explore_histories(depth):
     return out
 
 
+OBJ_OPS = ['build', 'run-newest', 'run-oldest', 'rm']
+
+
+def object_history(seq):
+    """seq over OBJ_OPS. Flow objects are built when 'build' says so (not at run time) and may be run several times.
+    Model: a run returns the reference and executes the steps before the checkpoint iff the file is absent *when it runs*."""
+    viol = []
+    with core.scratch_dir() as d:
+        root = os.path.join(d, 'cp')
+        flows = []
+        ref = None
+        for i, op in enumerate(seq):
+            label = 'Flow objects, history [%s] at step %d' % (' ; '.join(seq), i)
+            if op == 'build':
+                counters = collections.Counter()
+                flows.append((history_flow(root, counters), counters))
+            elif op == 'rm':
+                shutil.rmtree(root, ignore_errors=True)
+            else:
+                if not flows:
+                    continue
+                flow, counters = flows[-1] if op == 'run-newest' else flows[0]
+                has1 = os.path.exists(os.path.join(root, 'c1', 'stream.ndjson'))
+                has2 = os.path.exists(os.path.join(root, 'c2', 'stream.ndjson'))
+                before = dict(counters)
+                try:
+                    res = flow.results()
+                except Exception as e:
+                    viol.append(('object-history-raises/%s' % op, '%s: run raises %s: %s' % (label, core.exc_sig(e), str(e)[:100])))
+                    break
+                if ref is None:
+                    ref = res
+                got = {k: counters[k] - before.get(k, 0) for k in ('src', 'A', 'B', 'C')}
+                exp = {'src': 0 if (has1 or has2) else 3, 'A': 0 if (has1 or has2) else 1, 'B': 0 if has2 else 1, 'C': 1}
+                if got != exp:
+                    viol.append(('object-history-executes/%s' % op, '%s: with c1 %s / c2 %s at run time the run executed %r, model %r'
+                                 % (label, 'present' if has1 else 'absent', 'present' if has2 else 'absent', got, exp)))
+                    break
+                if not rows_eq(res[0], ref[0]) or res[1].descriptor != ref[1].descriptor:
+                    viol.append(('object-history-differs/%s' % op, '%s: result differs from the first run' % label))
+                    break
+    return viol
+
+
+def object_batch(batch):
+    out = {'n': 0, 'keys': [], 'outcomes': {}, 'viol': []}
+    seen = set()
+    for seq in batch:
+        v = object_history(seq)
+        out['n'] += 1
+        out['outcomes']['object-history:' + ('ok' if not v else 'violated')] = out['outcomes'].get('object-history:' + ('ok' if not v else 'violated'), 0) + 1
+        out['keys'].append(h(['objhist', seq]))
+        for sig, what in v:
+            if sig not in seen:
+                seen.add(sig)
+                out['viol'].append((sig, what, {'part': 'objects', 'seq': seq}))
+    out['sample'] = {'part': 'objects', 'seq': batch[0]}
+    return out
+
+
+def object_sequences(maxlen):
+    out = []
+    for n in range(2, maxlen + 1):
+        for seq in itertools.product(OBJ_OPS, repeat=n):
+            if seq[0] != 'build' or not any(o.startswith('run') for o in seq):
+                continue
+            out.append(list(seq))
+    return out
+
+
 def run(run):
     alpha = value_alphabet()
     cases = [{'vals': [i]} for i in range(len(alpha))]
@@ -227,8 +297,12 @@ def run(run):
     for res in run.map(value_batch, batches, chunksize=1):
         run.absorb(res)
     depth = 4 if run.tier == 'quick' else 6
-    res = explore_histories(depth)
+    with core.quiet():
+        res = explore_histories(depth)
     run.absorb(res)
+    seqs = object_sequences(5 if run.tier == 'quick' else 6)
+    for res in run.map(object_batch, [seqs[i:i + 25] for i in range(0, len(seqs), 25)], chunksize=1):
+        run.absorb(res)
     run.rule = ('part A: every single-field table of <=2 values (same declared type) over a %d-value alphabet covering '
                 'every type the extended JSON encoding claims, plus the 3-resource variant; part B: BFS over histories '
                 'of {run, rm c1, rm c2, rm both} to depth %d on a two-checkpoint chain with state merging on directory '
@@ -240,6 +314,8 @@ def run(run):
 
 
 def replay(w):
+    if w.get('part') == 'objects':
+        return [(sg, what, w) for sg, what in object_history(w['seq'])]
     if w.get('part') == 'history':
         return explore_histories(len(w['hist']))['viol']
     viol, _ = value_case(w)
